@@ -488,6 +488,9 @@ def run(ctx):
     from rules import c02
     c02.r4_oneway(ctx, prog, rule_id='C08.R7')
     r4b_keygen_mechanism(ctx, prog)
+    from rules import c09, c01
+    c09.r5_cleanup_target(ctx, prog, rule_id='C08.R8')
+    c01.r7_bool_values(ctx, prog, rule_id='C08.R9')
 
 
 MUTANTS = [
